@@ -2,6 +2,7 @@ package javascript
 
 //verif:dir internal/util/javascript
 //verif:bound script text over the alphabet {a b $ _ 0 1 . + - * / = ; ( ) , " space newline}, len<=5 (quick) / <=6 (thorough), ending in ';'
+//verif:bound a binary + or - followed after white space by a prefix + - ++ -- (operator adjacency), renaming on or off
 //verif:assume the script is a sentence of the small certainly-valid, semicolon-terminated expression-statement language recognised by jsValid (see the grammar in the harness); renaming is off (Minify(src,false))
 //verif:outside execution semantics (no JavaScript engine in the image), local renaming, template literals, regex literals, ASI, scripts longer than the bound or outside the alphabet
 //verif:summarize github.com/tucats/ego/internal/util/javascript.isIdentStart
@@ -359,4 +360,21 @@ func VerifC33_tokensPreserved() {
 	b, ok2 := jsRefTokens(out)
 	sym.Assert(ok2 && jsSameTokens(a, b), "Minify(src,false) changed the JavaScript token sequence")
 	sym.Assert(string(Minify(out, false)) == string(out), "Minify is not idempotent on its own output")
+}
+
+// VerifC33_operatorAdjacency: a binary + or - followed, after white space, by a
+// unary or prefix operator: removing the white space must not let the two
+// operators run together into a different one (a+ ++b is not a++ +b).
+func VerifC33_operatorAdjacency() {
+	o1 := []string{"+", "-"}[sym.Choice("binary", 2)]
+	o2 := []string{"+", "-", "++", "--"}[sym.Choice("prefix", 4)]
+	sep := []string{" ", "\n", "  "}[sym.Choice("space", 3)]
+	src := []byte("a" + o1 + sep + o2 + "b;")
+	a, ok := jsRefTokens(append([]byte(nil), src...))
+	sym.Assume(ok)
+	out := Minify(src, sym.Bool("renaming"))
+	sym.Reach("minified")
+	sym.Observe("out", string(out))
+	b, ok2 := jsRefTokens(out)
+	sym.Assert(ok2 && jsSameTokens(a, b), "Minify changed the JavaScript token sequence")
 }
